@@ -56,3 +56,54 @@ def ncomp(spec):
     if name == "Chain":
         return max(ncomp(s) for s in spec[1]["steps"])
     return 1
+
+
+ROUTES = ["ctor", "set_params", "attribute", "clone"]
+
+
+def _perturbed(spec):
+    """Same estimator class with other parameter values (numbers moved, reductions swapped); composites keep their members."""
+    name, kw = spec[0], dict(spec[1]) if len(spec) > 1 else {}
+    out = {}
+    for k, v in kw.items():
+        if k in ("steps", "components", "force_coords", "engine"):
+            out[k] = v
+        elif k == "reduction":
+            out[k] = {"mean": "median", "median": "mean", "average": "average"}.get(v, "mean")
+        elif isinstance(v, bool) or v is None:
+            out[k] = v
+        elif isinstance(v, int):
+            out[k] = v + 2
+        elif isinstance(v, float):
+            out[k] = 3.0 * v + 1.0
+        else:
+            out[k] = v
+    return [name, out]
+
+
+def build_via(spec, extent=1.0, route="ctor"):
+    """The estimator of `spec`, with its parameters arriving through `route`: the constructor, set_params / attribute assignment on an
+    instance constructed with other values, or sklearn.base.clone.  Members of Chain / Vector arrive through the same route."""
+    import verde as vd
+    from sklearn.base import clone
+
+    name, kw = spec[0], dict(spec[1]) if len(spec) > 1 else {}
+    if route == "ctor":
+        return build(spec, extent)
+    with warnings.catch_warnings():
+        warnings.simplefilter("ignore")
+        if name == "Chain":
+            return vd.Chain([("s%d" % i, build_via(s, extent, route)) for i, s in enumerate(kw["steps"])])
+        if name == "Vector":
+            return vd.Vector([build_via(s, extent, route) for s in kw["components"]])
+        target = build(spec, extent)
+        if route == "clone":
+            return clone(target)
+        est = build(_perturbed(spec), extent)
+        params = target.get_params(deep=False)
+        if route == "set_params":
+            est.set_params(**params)
+        else:
+            for k, v in params.items():
+                setattr(est, k, v)
+        return est
